@@ -364,6 +364,12 @@ pub fn for_each_combined_term(tier: &str, st: &mut Striper, visit: &mut dyn FnMu
                   }))
                 };
                 visit(&mk(im.clone()));
+                // an inner NAME with the same text as an outer name (both kinds share one name table)
+                if ii % 5 == 1 && isegs.iter().any(|s| matches!(s.orig, Some((_, _, _, Some(_))))) {
+                  let mut im3 = im.clone();
+                  im3.names = vec!["ab".into()];
+                  visit(&mk(im3));
+                }
                 // a source of the inner map that the outer map lists as well (same name, same content)
                 if other.is_some() && ii % 5 == 0 && inner_has_content {
                   let mut im2 = im.clone();
@@ -518,6 +524,49 @@ pub fn shifted_identity_worker(_tier: &str, k: usize, n: usize, ctx: &mut Ctx) {
           c09_case(ctx, &t);
         }
       }
+    }
+  }
+  crate::clear_current_case();
+}
+
+/// Outer names and inner-map names share ONE name table: all lists of three outer segments whose
+/// names are drawn from {nn, mm, none} and that point to another source or into the inner source,
+/// against inner maps whose segments carry the name "nn" (same text as an outer name), "kk" or none.
+pub fn shared_name_text_worker(_tier: &str, k: usize, n: usize, ctx: &mut Ctx) {
+  let gen = "abc";
+  let original = "nn mm";
+  let (gpos, _) = model::positions(gen);
+  // outer: source 0 = other.js, source 1 = inner
+  let okinds: Vec<Option<O4>> = vec![
+    Some((0, 1, 0, Some(0))),
+    Some((0, 1, 1, Some(1))),
+    Some((0, 2, 0, None)),
+    Some((1, 1, 0, None)),
+    Some((1, 1, 0, Some(0))),
+    Some((1, 1, 3, Some(1))),
+    Some((1, 1, 3, None)),
+    None,
+  ];
+  let inner_variants: Vec<(Vec<Seg>, Vec<&str>)> = vec![
+    (vec![Seg { gl: 1, gc: 0, orig: Some((0, 1, 0, Some(0))) }, Seg { gl: 1, gc: 3, orig: Some((0, 1, 3, None)) }], vec!["nn"]),
+    (vec![Seg { gl: 1, gc: 0, orig: Some((0, 1, 0, None)) }, Seg { gl: 1, gc: 3, orig: Some((0, 1, 3, Some(0))) }], vec!["mm"]),
+    (vec![Seg { gl: 1, gc: 0, orig: Some((0, 1, 0, Some(1))) }, Seg { gl: 1, gc: 3, orig: Some((0, 1, 3, Some(0))) }], vec!["kk", "nn"]),
+  ];
+  let mut st = Striper::new(k, n);
+  for osegs in trees::seg_lists(&gpos, &okinds, 3) {
+    if osegs.len() < 3 || !st.mine() {
+      continue;
+    }
+    for (isegs, inames) in &inner_variants {
+      let mut im = MapSpec::new(isegs.clone(), &["y0"], None, inames);
+      im.contents = Some(vec![original.to_string()]);
+      let mut om = MapSpec::new(osegs.clone(), &["other.js", INNER_NAME], None, &["nn", "mm"]);
+      om.contents = Some(vec!["content of other\nl2".into(), String::new()]);
+      let t = Term::Sms(Box::new(SmsSpec { value: gen.to_string(), name: INNER_NAME.to_string(), map: om, original_source: Some(original.to_string()), inner: Some(im), remove: false }));
+      crate::set_current_case(&t);
+      ctx.states += 1;
+      ctx.count("shared_name_text_cases");
+      c09_case(ctx, &t);
     }
   }
   crate::clear_current_case();
